@@ -1,9 +1,72 @@
 import WzVerif.Driver.Proto
+import WzVerif.Model.Url
 namespace Wz.Driver.C15
-open Wz Wz.Proto
+open Wz Wz.Proto Wz.Url
 
-/-- stub: no model commands yet -/
+def keepOf (which : String) : Option (List Bool) :=
+  match which with
+  | "path" => some Gen.UrlTables.keepPath
+  | "query" => some Gen.UrlTables.keepQuery
+  | "fragment" => some Gen.UrlTables.keepFragment
+  | "user" => some Gen.UrlTables.keepUser
+  | _ => none
+
+def parts (args : List String) : Option Parts :=
+  match args with
+  | [scheme, user, pw, host, port, path, query, fragment] => do
+    let scheme ← unhexStr scheme
+    let user ← optArg unhexStr user
+    let pw ← optArg unhexStr pw
+    let host ← unhexStr host
+    let port ← optArg natArg port
+    let path ← unhexStr path
+    let query ← unhexStr query
+    let fragment ← unhexStr fragment
+    pure { scheme, username := user, password := pw, host, port, path, query, fragment }
+  | _ => none
+
+def split (s : Split) : String :=
+  ",".intercalate [hexStr s.scheme, hexStr s.netloc, hexStr s.path, hexStr s.query, hexStr s.fragment]
+
 def handle : Handler
+  | "quote", [safe, s] =>
+    match unhexStr safe, unhexStr s with
+    | some safe, some s => some (hexStr (quote safe s))
+    | _, _ => some badArgs
+  | "quotebytes", [safe, s] =>
+    match unhexStr safe, unhex s with
+    | some safe, some s => some (hexStr (quoteBytes safe s))
+    | _, _ => some badArgs
+  | "unquote", [s] =>
+    match unhexStr s with
+    | some s => some (hexStr (unquote s))
+    | none => some badArgs
+  | "unquotepart", [which, s] =>
+    match keepOf which, unhexStr s with
+    | some k, some s => some (hexStr (unquotePartial k s))
+    | _, _ => some badArgs
+  | "iri2uri", args =>
+    match parts args with
+    | some p => some (split (iriToUri p))
+    | none => some badArgs
+  | "uri2iri", args =>
+    match parts args with
+    | some p => some (split (uriToIri p))
+    | none => some badArgs
+  | "encdance", [s] =>
+    match unhexStr s with
+    | some s => some (hexStr (encodingDance s))
+    | none => some badArgs
+  | "decdance", [s] =>
+    match unhexStr s with
+    | some s => some (match decodingDance s with | some r => hexStr r | none => "EXC:UnicodeEncodeError")
+    | none => some badArgs
+  | "dispatch", pi :: mounts =>
+    match unhexStr pi, mounts.mapM unhexStr with
+    | some pi, some ms =>
+      let d := dispatch ms pi
+      some (hexStr d.script ++ "," ++ hexStr d.pathInfo ++ "," ++ outOpt hexStr d.mount)
+    | _, _ => some badArgs
   | _, _ => none
 
 end Wz.Driver.C15
